@@ -8,7 +8,7 @@ META = {
             "Http::ContentLengthInterpreter (findDigits/goodSuffix/checkValue/checkList/checkField incl. strListGetItem), "
             "httpHeaderParseOffset (strtoll semantics) and HttpHeader::parse (line loop, HttpHeaderEntry::parse, the "
             "Content-Length/Transfer-Encoding branches, putInt64/getInt64): for ALL items, checkValue extracts v iff the "
-            "item is OWS 1*DIGIT OWS (the mode's regenerated white-space sets) with value v < 2^63; for ALL field "
+            "item is OWS 1*DIGIT OWS (OWS = SP / HTAB in both modes, regenerated WSP table) with value v < 2^63; for ALL field "
             "sequences: strict mode uses v iff there is exactly one field and it is such a token; relaxed mode uses v iff "
             "every occurrence (fields, and comma-separated elements trimmed, empty ones ignored) is a token of the same v "
             "(lists: _partial only in that values with a double quote in a list-like field are excluded); otherwise "
@@ -18,7 +18,7 @@ META = {
             "examined. The former counterexample `1,<VT>,5` (repaired in /repo: strListGetItem skips VT/FF as leading "
             "delimiters) is proved to be flagged. Tie: extracted model vs the real interpreter, httpHeaderParseOffset "
             "and HttpHeader::parse compiled from the working tree (UBSan), 0 disagreements.",
-    "note": "Trusted: Coq kernel, extraction, gen/gen_charsets.cc (DIGIT/TCHAR/Whitespace/Delimiter per mode), "
+    "note": "Trusted: Coq kernel, extraction, gen/gen_charsets.cc (DIGIT/TCHAR/WSP), "
             "harness/h_clen.cc; ClenModel.v is validated against the code only on the generated cases. With "
             "Transfer-Encoding present or for 1xx/204/trailers Content-Length is deleted whatever its state and the header "
             "is not flagged: the theorem states that it is then never used. An all-empty list ('Content-Length: ,') counts "
@@ -62,7 +62,7 @@ def unhx(h):
 TWO63 = 2 ** 63
 BIG = [TWO63 - 1, TWO63, TWO63 + 1, TWO63 - 2, 2 ** 64, 2 ** 64 + 5, 10 ** 19, 10 ** 20, 2 ** 31, 2 ** 32 + 100,
        999999999999999999, 9999999999999999999, 99999999999999999999]
-WSS = [b"", b"", b"", b" ", b" ", b"\t", b"  ", b"\x0b", b"\x0c", b"\r", b" \t", b"\x0b ", b"\n"]
+WSS = [b"", b"", b"", b"", b" ", b" ", b" ", b"\t", b"\t", b"  ", b" \t", b"\t ", b"\x0b", b"\x0c", b"\r", b"\x0b ", b"\n"]
 GARB = [b"+5", b"-5", b"-0", b"5x", b"x5", b"5 5", b"0x10", b"5.0", b"", b" ", b"\xb5", b"5\xff", b"5;q=1", b"1e3",
         b"\"5\"", b"5\"", b"--5", b"5-", b"five", b"\x0b", b"5\x00", b"0 0"]
 
@@ -205,8 +205,7 @@ ISSPACE = b" \t\n\x0b\x0c\r"
 
 def token_value(p, relaxed):
     """optional-whitespace-delimited non-negative decimal that fits int64, else None"""
-    ws = b" \t\x0b\x0c\r" if relaxed else b" \t"
-    dl = b" \t\x0b\x0c\r" if relaxed else b" "
+    ws = dl = b" \t"          # RFC 9110 OWS = SP / HTAB, in both parser modes
     i = 0
     while i < len(p) and p[i] in ws: i += 1
     j = i
@@ -285,7 +284,12 @@ def block_fields(blk):
         if b":" not in text:
             continue
         name, value = text.split(b":", 1)
-        out.append((name.rstrip(ISSPACE).lower(), value.strip(ISSPACE), folded))
+        name = name.rstrip(ISSPACE).lower()
+        if value.endswith(b"\r"):
+            value = value[:-1]                       # the CR of the CRLF line terminator
+        # only SP / HTAB are trimmed around the framing fields; anything else stays part of the value
+        value = value.strip(b" \t") if name in (b"content-length", b"transfer-encoding") else value.strip(ISSPACE)
+        out.append((name, value, folded))
     return out
 
 
